@@ -27,6 +27,10 @@ SPEC (a dict; everything the source does not say itself)
   drop_calls   call statements the spec declares outside the model (`super().__init__(src_packet)`)
   calls     {python function name: {lean, args, ret, raises}}   other translated functions this one calls
   fuel      {start of a `while` statement: python expression}   an upper bound of its rounds (see `PyRt.whileS`)
+  externals [(lean name, lean type)]   functions outside the model (`cryptography`, dpkt …): leading parameters of the
+            definition; `calls` entries name them in their `lean` text
+  ctors     {class name: {type, fields: [(keyword, type)], consts, ignore}}   keyword-only constructor calls as records
+  objects   parameter names that are objects only read/written through places (`return x, obj` returns `x`)
   exits     True: the value of the definition is how the fragment was left (`PyRt.Exit`: fall / cont / brk / ret)
 types: Int, Nat (an int known to be ≥ 0), Bool, Bytes, List T, Set T (a Python set; only `in` and `|` under `in`),
        Option T, Dict K V, anything else = an opaque type with decidable equality (only == != and assignment).
@@ -113,6 +117,10 @@ def ty(t):
     """Lean spelling of a spec type"""
     if t in TYPE_ALIAS:
         return TYPE_ALIAS[t]
+    if t.startswith("Fmt:"):
+        return "List PyRt.Fld"
+    if t.startswith("Tup:"):
+        return "List Bytes"
     if t.startswith("Set "):
         return "List " + ty_arg(t[4:])
     if t.startswith("List "):
@@ -131,6 +139,19 @@ def ty(t):
     if t == "None":
         return "Unit"
     return t
+
+
+def split_prod(t):
+    """the components of `A × B × C` (top level)"""
+    parts, depth, cur = [], 0, ""
+    for ch in t:
+        depth += (ch == "(") - (ch == ")")
+        if ch == "×" and depth == 0:
+            parts.append(cur.strip())
+            cur = ""
+        else:
+            cur += ch
+    return parts + [cur.strip()]
 
 
 def split_table(t):
@@ -189,6 +210,7 @@ class Translator:
         self.init_used = set()
         self.synthetic = set()
         self.owned = set()
+        self.seen_types = {}
         TYPE_ALIAS.clear()
         TYPE_ALIAS.update({"Str": "List Nat"})
         TYPE_ALIAS.update(spec.get("types", {}))
@@ -243,6 +265,8 @@ class Translator:
             a, b = typ.split("|")
             if is_int(v.typ) and a == "Int":
                 return f"(Sum.inl {self.to_int(v)} : {ty(typ)})"
+            if v.typ == a:
+                return f"(Sum.inl {v.term} : {ty(typ)})"
             if v.typ == b:
                 return f"(Sum.inr {v.term} : {ty(typ)})"
         if v.typ == "EmptyList" and typ.startswith("List "):
@@ -283,13 +307,19 @@ class Translator:
         if isinstance(c, bytes):
             return V("([" + ", ".join(str(b) for b in c) + "] : Bytes)", "Bytes")
         if isinstance(c, str):
-            return V("([" + ", ".join(str(ord(ch)) for ch in c) + "] : List Nat)", "Str")       # the code points
+            return V("([" + ", ".join(str(ord(ch)) for ch in c) + "] : List Nat)", "Str", lit=c)   # the code points
         if c is None:
             return V("none", "NoneType")
         self.bad(node, f"literal of type {type(c).__name__} is outside the subset")
 
     def e_Name(self, node, env):
         v = env.get(node.id)
+        known = self.seen_types.get(node.id, self.spec.get("locals", {}).get(node.id))
+        if (v is None and node.id in getattr(self, "assigned_anywhere", ()) and ("maybe", node.id) not in env
+                and known is not None):
+            # a local of this function that no statement on the path to here has assigned: UnboundLocalError
+            t = known
+            return V(self.hoist(f"(Except.error PyRt.Err.unbound : Except PyRt.Err {ty_arg(t)})", t, node), t)
         if v is None:
             self.bad(node, f"name `{node.id}` is not a parameter, a local assigned on every path to here, or a spec constant")
         return V(v.term, v.typ, v.nn, v.lit)
@@ -331,8 +361,78 @@ class Translator:
             self.bad(node, f"operand types {a.typ}, {b.typ}")
         return V(intop(ai, bi), "Int", nn)
 
+    # ---- struct format strings: a value of type `Fmt:<kinds>` is the list of its fields (`PyRt.Fld`); the KINDS (B / s) of
+    # the fields are static, the counts of the `s` fields are values. `<fmt> + str(e) + "s"` appends an `s` field of count
+    # `e` (a negative `e` prints as "-…", a bad format: struct.error when it is used); only the characters B, s and digits.
+    def fmt_atoms(self, node, out):
+        if isinstance(node, ast.BinOp) and isinstance(node.op, ast.Add):
+            self.fmt_atoms(node.left, out)
+            self.fmt_atoms(node.right, out)
+        else:
+            out.append(node)
+        return out
+
+    def is_fmt(self, node, env):
+        for a in self.fmt_atoms(node, []):
+            if isinstance(a, ast.Call) and self.key(a.func) == "str":
+                return True
+            if isinstance(a, ast.Name) and a.id in env and env[a.id].typ.startswith("Fmt:"):
+                return True
+        return False
+
+    def fmt_literal(self, text, node, pending=None):
+        """fields of a literal piece; `pending`: a count left by a preceding `str(e)` → ([lean field terms], kinds, pending)"""
+        terms, kinds, digits = [], "", ""
+        for ch in text:
+            if ch.isdigit() and ch.isascii():
+                if pending is not None:
+                    self.bad(node, "digits after a computed count in a struct format")
+                digits += ch
+            elif ch == "B":
+                if pending is not None or digits:
+                    self.bad(node, "a repeat count before `B` in a struct format")
+                terms.append("PyRt.Fld.B")
+                kinds += "B"
+            elif ch == "s":
+                cnt = pending if pending is not None else (f"({int(digits)} : Int)" if digits else "(1 : Int)")
+                terms.append(f"PyRt.Fld.S {cnt}")
+                kinds += "s"
+                pending, digits = None, ""
+            else:
+                self.bad(node, f"struct format character {ch!r} (only B, s and digits are in the subset)")
+        if digits:
+            self.bad(node, "a struct format piece that ends in digits")
+        return terms, kinds, pending
+
+    def fmt_expr(self, node, env):
+        terms, kinds, pending, base = [], "", None, None
+        for i, a in enumerate(self.fmt_atoms(node, [])):
+            if isinstance(a, ast.Name) and a.id in env and env[a.id].typ.startswith("Fmt:"):
+                if i != 0:
+                    self.bad(node, "a format value that is not the leftmost operand")
+                base, kinds = env[a.id].term, env[a.id].typ[4:]
+            elif isinstance(a, ast.Constant) and isinstance(a.value, str):
+                t, k, pending = self.fmt_literal(a.value, a, pending)
+                terms += t
+                kinds += k
+            elif isinstance(a, ast.Call) and self.key(a.func) == "str" and len(a.args) == 1 and not a.keywords:
+                if pending is not None:
+                    self.bad(node, "two computed counts in a row in a struct format")
+                e = self.expr(a.args[0], env)
+                if not is_int(e.typ):
+                    self.bad(a, f"str() of {e.typ} inside a struct format")
+                pending = self.to_int(e)
+            else:
+                self.bad(a, "operand of a struct format concatenation that is not a format value, a literal or str(int)")
+        if pending is not None:
+            self.bad(node, "a struct format that ends in a count")
+        lst = "[" + ", ".join(terms) + "]"
+        return V(f"({base} ++ {lst})" if base is not None else f"({lst} : List PyRt.Fld)", "Fmt:" + kinds)
+
     def e_BinOp(self, node, env):
         op = type(node.op).__name__
+        if op == "Add" and self.is_fmt(node, env):
+            return self.fmt_expr(node, env)
         a = self.expr(node.left, env)
         b = self.expr(node.right, env)
         if op == "Add" and a.typ == "Bytes" and b.typ == "Bytes":
@@ -557,6 +657,24 @@ class Translator:
                 return V(f"(TLX.Bytes.slice {x.term} {self.to_nat(lo) if lo else '0'} {self.to_nat(hi)})", "Bytes")
             opt = lambda b: "none" if b is None else f"(some {self.to_int(b)})"
             return V(f"(PyRt.pySlice {x.term} {opt(lo)} {opt(hi)})", "Bytes")
+        if x.typ.startswith("Tup:") or ("×" in x.typ and not x.typ.startswith(("List ", "Option ", "Table ", "Set "))):
+            ic = node.slice
+            if isinstance(ic, ast.UnaryOp) and isinstance(ic.op, ast.USub) and isinstance(ic.operand, ast.Constant):
+                ic = ast.Constant(value=-ic.operand.value)
+            if not (isinstance(ic, ast.Constant) and isinstance(ic.value, int) and not isinstance(ic.value, bool)):
+                self.bad(node, "a tuple indexed by anything but an int literal")
+            if x.typ.startswith("Tup:"):
+                kinds = x.typ[4:]
+                j = ic.value + len(kinds) if ic.value < 0 else ic.value
+                if not 0 <= j < len(kinds):
+                    self.bad(node, "tuple index out of range (statically)")
+                return (V(f"(PyRt.fldB {x.term} {j})", "Nat", True) if kinds[j] == "B" else V(f"(PyRt.fldS {x.term} {j})", "Bytes"))
+            parts = split_prod(x.typ)
+            j = ic.value + len(parts) if ic.value < 0 else ic.value
+            if not 0 <= j < len(parts):
+                self.bad(node, "tuple index out of range (statically)")
+            proj = x.term + ".2" * j + (".1" if j < len(parts) - 1 else "")
+            return V(f"({proj})", unparen(parts[j]))
         i = self.expr(node.slice, env)
         if x.typ == "Bytes":
             if not is_int(i.typ):
@@ -582,6 +700,25 @@ class Translator:
             if not (x.typ == "Bytes" or x.typ.startswith("List ")):
                 self.bad(node, f"len of {x.typ}")
             return V(f"(List.length {x.term})", "Nat", True)
+        if fname == "struct.unpack_from" and len(node.args) == 2 and not kw:
+            fm = self.fmt_expr(node.args[0], env) if (self.is_fmt(node.args[0], env) or isinstance(node.args[0], ast.Constant)) \
+                else self.expr(node.args[0], env)
+            d = self.expr(node.args[1], env)
+            if not fm.typ.startswith("Fmt:") or d.typ != "Bytes":
+                self.bad(node, f"struct.unpack_from({fm.typ}, {d.typ})")
+            typ = "Tup:" + fm.typ[4:]
+            return V(self.hoist(f"PyRt.unpackFrom {fm.term} {d.term}", typ, node), typ)
+        if fname == "zip" and len(node.args) == 2 and not kw:
+            a, b = self.expr(node.args[0], env), self.expr(node.args[1], env)
+            if a.typ == "Bytes" and b.typ == "Bytes":
+                return V(f"(PyRt.zipBytes {a.term} {b.term})", "List (Nat × Nat)")
+            self.bad(node, f"zip of {a.typ} and {b.typ}")
+        if fname == "bytes" and len(node.args) == 1 and not kw and isinstance(node.args[0], ast.List):
+            els = [self.expr(e, env) for e in node.args[0].elts]
+            if not all(is_int(e.typ) for e in els):
+                self.bad(node, "bytes([…]) of elements that are not ints")
+            lst = "[" + ", ".join(self.to_int(e) for e in els) + "]"
+            return V(self.hoist(f"PyRt.bytesOfE {lst}", "Bytes", node), "Bytes")          # ValueError outside range(256)
         if fname == "bool" and len(node.args) == 1 and not kw:
             x = self.expr(node.args[0], env)
             if x.typ == "Bool":
@@ -666,7 +803,43 @@ class Translator:
             if any(t is None and not isinstance(a, ast.Name) for a, t in zip(node.args, cc["args"])):
                 self.bad(node, "an ignored argument that is not a plain name")
             return V(self.hoist(f"PyRt.callClass {c.term} (fun py_c => {cc['lean']} py_c " + " ".join(args) + ")", cc["ret"], node), cc["ret"])
+        ctors = self.spec.get("ctors", {})
+        if fname in ctors and not node.args:
+            c = ctors[fname]
+            fields = dict(c["fields"])
+            vals = {}
+            for k_, vnode in kw.items():
+                if k_ in c.get("ignore", ()):
+                    if not (isinstance(vnode, ast.Subscript) and isinstance(vnode.slice, ast.Slice) and isinstance(vnode.value, ast.Name)):
+                        self.bad(vnode, "an ignored keyword argument that is not a plain slice of a local")
+                    continue
+                if k_ not in fields:
+                    self.bad(node, f"keyword `{k_}` is not a field the spec gives `{fname}`")
+                vals[k_] = self.coerce(self.expr(vnode, env), fields[k_], vnode)
+            out = list(c.get("consts", []))
+            for k_, t in c["fields"]:
+                if k_ in vals:
+                    out.append(f"{k_} := {vals[k_]}")
+                elif t.startswith("Option "):
+                    out.append(f"{k_} := none")
+                else:
+                    self.bad(node, f"`{fname}` called without `{k_}`")
+            return V("({ " + ", ".join(out) + " } : " + c["type"] + ")", c["type"])
         calls = self.spec.get("calls", {})
+        if fname in calls and kw and "params" in calls[fname]:
+            c = calls[fname]
+            order = list(c["params"])
+            given = {order[i]: a for i, a in enumerate(node.args)}
+            given.update(kw)
+            if set(given) != set(order):
+                self.bad(node, f"call of `{fname}` that does not give exactly the parameters {order}")
+            # Python evaluates the arguments in the order they are written
+            written = [order[i] for i in range(len(node.args))] + list(kw)
+            vs = {n_: self.coerce(self.expr(given[n_], env), t, node) for n_, t in ((w, c["args"][order.index(w)]) for w in written)}
+            term = f"{c['lean']} " + " ".join(vs[n_] for n_ in order)
+            if c.get("raises"):
+                return V(self.hoist(term, c["ret"], node), c["ret"])
+            return V(f"({term})", c["ret"])
         if fname in calls and not kw:
             c = calls[fname]
             if len(node.args) != len(c["args"]):
@@ -726,6 +899,13 @@ class Translator:
         env = dict(env)
         if isinstance(target, ast.Name):
             decl = self.spec.get("locals", {}).get(target.id)
+            if decl == "Fmt":
+                if v.typ == "Str" and isinstance(v.lit, str):
+                    t, k, pend = self.fmt_literal(v.lit, node)
+                    v = V("([" + ", ".join(t) + "] : List PyRt.Fld)", "Fmt:" + k)
+                if not v.typ.startswith("Fmt:"):
+                    self.bad(node, f"a struct format local assigned {v.typ}")
+                decl = None
             if decl is not None:
                 v = V(self.coerce(v, decl, node), decl, v.nn and decl == "Int")
             if v.typ in ("NoneType", "EmptyDict", "EmptyList"):
@@ -734,6 +914,8 @@ class Translator:
             if target.id in self.reserved or not (lname_ok(target.id) or target.id in self.synthetic):
                 self.bad(node, f"local `{target.id}` clashes with a Lean name of the spec or of the emitted text")
             env[target.id] = V(n, v.typ, v.nn)
+            env.pop(("maybe", target.id), None)
+            self.seen_types.setdefault(target.id, v.typ)
             return env, f"let {n} : {ty(v.typ)} := {v.term}"
         k = self.key(target)
         if k in self.places:
@@ -841,7 +1023,11 @@ class Translator:
     def s_Return(self, st, rest, env, frame):
         if st.value is None:
             return frame.ret(V("()", "NoneType"), env, st)
-        v, hs = self.eval(st.value, env)
+        val = st.value
+        if (isinstance(val, ast.Tuple) and len(val.elts) == 2 and isinstance(val.elts[1], ast.Name)
+                and val.elts[1].id in self.spec.get("objects", ())):
+            val = val.elts[0]           # `return x, obj`: the object is the state record the definition returns anyway
+        v, hs = self.eval(val, env)
         return self.with_hoists(hs, env, frame, lambda: frame.ret(v, env, st))
 
     def s_Continue(self, st, rest, env, frame):
@@ -858,8 +1044,11 @@ class Translator:
             self.bad(st, "try with else/finally or without a handler")
         hs = []
         for h in st.handlers:
+            if isinstance(h.type, ast.Name) and h.type.id == "Exception":
+                hs.append(("*", list(h.body)))                        # every exception of the subset is an Exception
+                continue
             if not (isinstance(h.type, ast.Name) and h.type.id in self.EXC):
-                self.bad(h, "except clause that does not name one of " + ", ".join(self.EXC))
+                self.bad(h, "except clause that does not name Exception or one of " + ", ".join(self.EXC))
             hs.append((self.EXC[h.type.id], list(h.body)))
         after = ContFrame(self, frame, rest)
         return self.block(list(st.body), env, TryFrame(self, after, hs))
@@ -1175,6 +1364,8 @@ class Translator:
         for n in self.assigned(st.body, []) + [b[0] for b in bound]:
             if n not in mod and n in env2:
                 del env2[n]                                          # bound after the loop only if it ran: not usable
+            if n not in mod and isinstance(n, str):
+                env2[("maybe", n)] = True
         after = lambda: ind(unpack + self.block(rest, env2, frame))
         if fuel is not None:
             fn = f"(fun (py_s : {sty}) =>\n{ind(unpack + body, 4)})"
@@ -1226,7 +1417,9 @@ class TryFrame(Frame):
     def raise_(self, e, env):
         out = self.after.raise_(e, env)
         for kind, body in reversed(self.handlers):
-            out = f"(if decide ({e} = PyRt.Err.{kind}) then (\n{ind(self.tr.block(body, env, self.after))})\nelse {out})"
+            # (`fuel` is no Python exception: it is never caught)
+            test = f"decide ({e} ≠ PyRt.Err.fuel)" if kind == "*" else f"decide ({e} = PyRt.Err.{kind})"
+            out = f"(if {test} then (\n{ind(self.tr.block(body, env, self.after))})\nelse {out})"
         return out
 
 
@@ -1501,9 +1694,10 @@ def _translate(tr, func, spec, assume_raises):
             if p not in declared and p != "self" and p not in roots:
                 # a parameter that is never used is fine; a used one shows up as an unknown name
                 pass
+    tr.assigned_anywhere = {n.id for n in ast.walk(func) if isinstance(n, ast.Name) and isinstance(n.ctx, ast.Store)}
     tr.reserved = {p[1] for p in tr.places.values()} | {p[1] + "'" for p in tr.places.values()}
     env = {}
-    binders = []
+    binders = [(n, t) for n, t in spec.get("externals", [])]         # functions outside the model: parameters
     for n, t in params:
         if not lname_ok(n):
             tr.bad(func, f"parameter `{n}` clashes with a name of the emitted text")
